@@ -123,9 +123,11 @@ func checkLife(hist string, ticks []int, dir string, st *searchStats, out sink) 
 	m := &lifeModel{headEmpty: true}
 	var cum []int // cumulative bytes written through the encoder after each underlying write
 	total := 0
-	tickAt := map[int]bool{}
+	// a schedule entry is 2*(index of the underlying write) + kind; kind 0: flush ticker then size-check
+	// ticker (F+C), kind 1: the size-check ticker alone (C, no flush before it)
+	tickAt := map[int]int{}
 	for _, t := range ticks {
-		tickAt[t] = true
+		tickAt[t/2] = t%2 + 1
 	}
 	var tickErr error
 	hook := func(g *auto.Group, n int) {
@@ -133,15 +135,19 @@ func checkLife(hist string, ticks []int, dir string, st *searchStats, out sink) 
 		total += n
 		cum = append(cum, total)
 		m.headEmpty = false
-		if tickAt[k] {
-			// what the BaseWAL flush ticker and the group ticker do
-			if err := g.FlushAndSync(); err != nil {
-				tickErr = err
-				return
+		if kind := tickAt[k]; kind != 0 {
+			if kind == 1 { // the BaseWAL flush ticker
+				if err := g.FlushAndSync(); err != nil {
+					tickErr = err
+					return
+				}
 			}
-			g.VerifC15CheckHeadSizeLimit() // limit 1: rotates, the head is non-empty
-			m.rotations++
-			m.headEmpty = true
+			before := g.MaxIndex()
+			g.VerifC15CheckHeadSizeLimit() // the group ticker; limit 1: rotates iff the head file is non-empty on disk
+			if g.MaxIndex() > before {
+				m.rotations++
+				m.headEmpty = true
+			}
 		}
 	}
 	open := func() *consensus.BaseWAL {
@@ -181,16 +187,21 @@ func checkLife(hist string, ticks []int, dir string, st *searchStats, out sink) 
 			m.recs = append(m.recs, consensus.TimedWALMessage{Time: tClock, Msg: consensus.EndHeightMessage{Height: m.h}})
 		case 'R':
 			if err = wal.FlushAndSync(); err == nil {
+				before := wal.Group().MaxIndex()
 				wal.Group().VerifC15CheckHeadSizeLimit()
-			}
-			if !m.headEmpty {
-				m.rotations++
-				m.headEmpty = true
+				if wal.Group().MaxIndex() > before {
+					m.rotations++
+					m.headEmpty = true
+				}
 			}
 		case 'S':
 			quietStop(wal, true)
 			m.restarts++
-			was := m.headEmpty
+			// OnStart writes EndHeight 0 iff the head file is empty: observed on disk, not modelled
+			was := true
+			if fi, serr := os.Stat(path); serr == nil && fi.Size() > 0 {
+				was = false
+			}
 			if wal = open(); wal == nil {
 				return
 			}
@@ -227,7 +238,7 @@ func checkLife(hist string, ticks []int, dir string, st *searchStats, out sink) 
 	for k, c := range cum {
 		if !onBoundary[c] {
 			li.midRecord = append(li.midRecord, k)
-			if tickAt[k] {
+			if tickAt[k] != 0 {
 				li.tickMidRecord = true
 			}
 		}
@@ -335,7 +346,7 @@ func runLife(hist string, ticks []int) lifeInfo {
 	li := checkLife(hist, ticks, dir, &st, func(oracle, what string) { pending = append(pending, pend{oracle, what}) })
 	dirPool.Put(dir)
 	for _, p := range pending {
-		reportViolation(sig(lifeClass(li), p.oracle, "group"), fmt.Sprintf("history %s ticks after underlying writes %v: %s", hist, ticks, p.what),
+		reportViolation(sig(lifeClass(li), p.oracle, "group"), fmt.Sprintf("history %s ticks %s: %s", hist, describeTicks(ticks), p.what),
 			caseSpec{Phase: "lives", History: hist, Ticks: append([]int{}, ticks...)})
 	}
 	r.Add("multi_life_runs", 1)
@@ -380,12 +391,14 @@ func exploreTicks(hist string, ticks []int, writes int, onlyMid bool, maxTicks i
 	}
 	lo := 0
 	if len(ticks) > 0 {
-		lo = ticks[len(ticks)-1] + 1
+		lo = ticks[len(ticks)-1]/2 + 1
 	}
 	for k := lo; k < writes; k++ {
-		next := append(append([]int{}, ticks...), k)
-		li := runLife(hist, next)
-		exploreTicks(hist, next, li.writes, onlyMid, maxTicks)
+		for kind := 0; kind < 2; kind++ {
+			next := append(append([]int{}, ticks...), 2*k+kind)
+			li := runLife(hist, next)
+			exploreTicks(hist, next, li.writes, onlyMid, maxTicks)
+		}
 	}
 }
 
@@ -423,14 +436,27 @@ func exploreMid(hist string, ticks []int, parent lifeInfo, maxTicks int) {
 	}
 	lo := 0
 	if len(ticks) > 0 {
-		lo = ticks[len(ticks)-1] + 1
+		lo = ticks[len(ticks)-1]/2 + 1
 	}
 	for _, k := range parent.midRecord {
 		if k < lo {
 			continue
 		}
-		next := append(append([]int{}, ticks...), k)
-		li := runLife(hist, next)
-		exploreMid(hist, next, li, maxTicks)
+		for kind := 0; kind < 2; kind++ {
+			next := append(append([]int{}, ticks...), 2*k+kind)
+			li := runLife(hist, next)
+			exploreMid(hist, next, li, maxTicks)
+		}
 	}
+}
+
+func describeTicks(ticks []int) string {
+	if len(ticks) == 0 {
+		return "none"
+	}
+	var p []string
+	for _, t := range ticks {
+		p = append(p, fmt.Sprintf("%s after underlying write %d", map[int]string{0: "flush+size-check", 1: "size-check only"}[t%2], t/2))
+	}
+	return strings.Join(p, ", ")
 }
